@@ -181,10 +181,10 @@ static void upipe_ts_pese_work(struct upipe *upipe, struct upump **upump_p)
                 header_size = PES_HEADER_SIZE_PTS;
         } else
             header_size = PES_HEADER_SIZE_NOPTS;
-    } else
+        if (header_size < upipe_ts_pese->pes_header_size)
+            header_size = upipe_ts_pese->pes_header_size;
+    } else /* no optional header, hence no stuffing */
         header_size = PES_HEADER_SIZE;
-    if (header_size < upipe_ts_pese->pes_header_size)
-        header_size = upipe_ts_pese->pes_header_size;
 
     struct ubuf *ubuf = ubuf_block_alloc(upipe_ts_pese->ubuf_mgr, header_size);
     if (unlikely(ubuf == NULL)) {
